@@ -530,6 +530,25 @@ def unsafeRemove (matched : List Node) (outs : List Name) (newNodes : List Node)
   let interior := (matched.flatMap (·.outputs)).filter fun v => !(outs.contains v)
   newNodes.any fun n => n.reads.any (interior.contains ·)
 
+/-- The test of fix f6e9b0d: some replacement node reads, or the replacement returns, an interior
+value of the match. -/
+def readsRemoved (matched : List Node) (outs : List Name) (newNodes : List Node) (newOutputs : List NewOut) : Bool :=
+  let interior := (matched.flatMap (·.outputs)).filter fun v => !(outs.contains v)
+  unsafeRemove matched outs newNodes ||
+    newOutputs.any fun o => match o with | .existing x => interior.contains x | _ => false
+
+/-- Fix e8a0767: every returned value that is an input of the graph (or function) being rewritten
+is replaced by the output of a new `Identity` node reading it. -/
+def addIdentities (inputs : List Name) : Nat → List NewOut → List Node × List NewOut
+  | _, [] => ([], [])
+  | base, .existing x :: rest =>
+    if inputs.contains x then
+      (Node.mk base "Identity" "" "" [some x] [freshName base 0] [] [] [] [] :: (addIdentities inputs (base + 1) rest).1,
+       .fresh (freshName base 0) :: (addIdentities inputs (base + 1) rest).2)
+    else ((addIdentities inputs base rest).1, .existing x :: (addIdentities inputs base rest).2)
+  | base, .fresh t :: rest => ((addIdentities inputs base rest).1, .fresh t :: (addIdentities inputs base rest).2)
+  | base, .none :: rest => ((addIdentities inputs base rest).1, .none :: (addIdentities inputs base rest).2)
+
 /-! ## `try_rewrite` + the body of the rule loop -/
 
 inductive Err where
@@ -569,6 +588,12 @@ def tryRule (kind : Kind) (r : Rule) (st : PassSt) (lo : List (String × Nat)) (
         | some main1 =>
           let st := { st with mainOpsets := main1 }
           let lo1 := if kind == .main then main1 else lo1
+          -- fix f6e9b0d: a replacement that reads (or returns) a value of a node about to be removed is skipped
+          let matched0 := m.nodes.filterMap (nodeById g)
+          let tapeGhost := (δ.newNodes.flatMap (·.inputNames)).filter (fun x => !((δ.newInits.map (·.1)).contains x))
+          if r.removeNodes && readsRemoved matched0 m.outputs δ.newNodes δ.newOutputs then
+            .ok (.skipped { st with ghost := st.ghost ++ tapeGhost } lo1)
+          else
           if !δ.newInits.isEmpty && kind == .func then
             -- the tape nodes are dropped but stay registered as users of the values they read
             -- (the initializer values created by this call are new objects, not the registered ones)
@@ -585,12 +610,16 @@ def tryRule (kind : Kind) (r : Rule) (st : PassSt) (lo : List (String × Nat)) (
             match res with
             | .error e => .error e
             | .ok (st, newNodes) =>
+              -- fixes e8a0767, 1dc987d: a returned graph input or graph output goes through an Identity node
+              let (idNodes, newOuts) := addIdentities (g.inputs ++ g.outputs) st.nextId δ.newOutputs
+              let st := { st with nextId := st.nextId + idNodes.length }
+              let newNodes := newNodes ++ idNodes
+              let δ := { δ with newOutputs := newOuts }
               let matchedNodes := m.nodes.filterMap (nodeById g)
               let newNodes := tagAndMerge r.name matchedNodes newNodes
               if δ.newOutputs.any (· == .none) then .error (.unmodelled "replacement returned None")
               else if !r.removeNodes && δ.newOutputs.any (fun o => match o with | .existing _ => true | _ => false) then
                 .error (.unmodelled "passthru with kept nodes")
-              else if r.removeNodes && unsafeRemove matchedNodes m.outputs newNodes then .error .unsafeRemove
               else
                 let g' := applyAt BIG g m newNodes δ.newOutputs r.removeNodes
                 .ok (.applied { st with count := st.count + 1 } lo1 g' (newNodes.head?.map (·.id) |>.getD 0))
@@ -660,17 +689,78 @@ def passLoop (rules : List Rule) (kind : Kind)
             if n.id == cur then n.setBodies (capsOf BIG subs') subs' else n)
           passLoop rules kind recurse fuel st lo g2 next
 
+/-! ## `Graph.sort()` (onnx_ir; contract, executable rendering) — fix a8da06e calls it at the end
+of `_apply_to_graph_or_function` when a rule with several output nodes is in the set and the call
+applied something.  Reverse Kahn over the graph and all its subgraphs: nodes in pre-order
+(a node, then the nodes of its bodies); predecessors of a node = producers of its inputs (if in
+the set) and the top-level nodes of its bodies; repeatedly pop the zero-child node with the
+largest index; each graph's new order is the reverse of its pop order.  Identity on sorted graphs. -/
+
+mutual
+def flatNodes : Nat → List Node → List Node
+  | 0, _ => []
+  | d + 1, ns => ns.flatMap fun n => n :: n.subs.flatMap fun s => flatGraph d s.2
+def flatGraph : Nat → Graph → List Node
+  | 0, _ => []
+  | d + 1, g => flatNodes d g.nodes
+end
+
+def sortPreds (flat : List Node) (n : Node) : List Nat :=
+  (n.inputNames.filterMap fun x => (flat.find? fun m => m.outputs.contains x).map (·.id)) ++
+    n.subs.flatMap fun s => s.2.nodes.map (·.id)
+
+def countOcc (l : List Nat) (x : Nat) : Nat := (l.filter (· == x)).length
+
+/-- pop order; `depth` = remaining child counts, `queue` = ids with zero children -/
+def kahn (idx : Nat → Nat) (preds : Nat → List Nat) : Nat → List (Nat × Nat) → List Nat → List Nat → List Nat
+  | 0, _, _, acc => acc
+  | _ + 1, _, [], acc => acc
+  | f + 1, depth, q :: queue, acc =>
+    let cur := (q :: queue).foldl (fun b x => if idx x > idx b then x else b) q
+    let queue := (q :: queue).filter (· != cur)
+    let (depth, queue) := (preds cur).foldl (fun (dq : List (Nat × Nat) × List Nat) p =>
+        let depth := dq.1.map fun (i, c) => if i == p then (i, c - 1) else (i, c)
+        if (depth.lookup p) == some 0 then (depth, dq.2 ++ [p]) else (depth, dq.2)) (depth, queue)
+    kahn idx preds f depth queue (acc ++ [cur])
+
+mutual
+def reorderNodes : Nat → List Nat → List Node → List Node
+  | 0, _, ns => ns
+  | d + 1, order, ns =>
+    let ids := ns.map (·.id)
+    (order.filter (ids.contains ·)).filterMap fun i =>
+      (ns.find? (·.id == i)).map fun n => n.setBodies n.caps (n.subs.map fun s => (s.1, reorderGraph d order s.2))
+def reorderGraph : Nat → List Nat → Graph → Graph
+  | 0, _, g => g
+  | d + 1, order, g => g.setNodes (reorderNodes d order g.nodes)
+end
+
+def sortGraph (g : Graph) : Graph :=
+  let flat := flatGraph BIG g
+  let allPreds := flat.flatMap (sortPreds flat)
+  let depth := flat.map fun n => (n.id, countOcc allPreds n.id)
+  let idx (i : Nat) : Nat := (flat.map (·.id)).idxOf i
+  let preds (i : Nat) : List Nat := ((flat.find? (·.id == i)).map (sortPreds flat)).getD []
+  let queue := (depth.filter (·.2 == 0)).map (·.1)
+  let pops := kahn idx preds (flat.length + 1) depth queue []
+  reorderGraph BIG pops.reverse g
+
 /-- one graph-or-function: depth-indexed knot for the recursion into bodies; a body starts with
 its own (empty after deserialisation) `opset_imports` -/
 def applyRules (rules : List Rule) (fuel : Nat) : Nat → Kind → PassSt → List (String × Nat) → Graph →
     Except Err (PassSt × List (String × Nat) × Graph)
   | 0, _, _, _, _ => .error .fuel
   | d + 1, kind, st, lo, g =>
-    passLoop rules kind
+    match passLoop rules kind
       (fun st b => match applyRules rules fuel d .sub st [] b with
         | .error e => .error e
         | .ok (st, _, b') => .ok (st, b'))
-      fuel st lo g (g.nodes.head?.map (·.id))
+      fuel st lo g (g.nodes.head?.map (·.id)) with
+    | .error e => .error e
+    | .ok (st', lo', g') =>
+      -- fix a8da06e: `if count and any(not has_single_output_node …): graph_or_function.sort()`
+      if st'.count > st.count && rules.any (fun r => (outputNodes r.pat).length != 1) then .ok (st', lo', sortGraph g')
+      else .ok (st', lo', g')
 
 /-! ## Dead-code elimination (`RemoveUnusedNodesPass`, onnx_ir — contract; executable rendering)
 
@@ -679,7 +769,7 @@ node detaches *its* inputs, but the nodes inside the bodies of a removed `If`/`L
 uses: values they read stay "used" (`ghost` names) for the rest of this pass and for later passes. -/
 
 /-- uses that survive the removal of `n` -/
-def ghostOf (n : Node) : List Name := n.subs.flatMap fun s => bodyReadsGraph BIG s.2
+def ghostOf (n : Node) : List Name := n.subs.flatMap fun s => freeGraph BIG s.2   -- outer values only: names bound inside the bodies are other objects
 
 mutual
 /-- nodes in *reverse* order; `live` = graph outputs + ghosts + reads of the later nodes kept so far.
